@@ -38,19 +38,19 @@ def _only_changed(case, o, blk, lo, hi):
 def kf_strncpy_slen0_shortcut(case, o, kind, cfg, consts):
     # strncpy_s(dest, dmax, src, 0): "*dest = 0; return EOK" before any other check
     m = case.meta
-    if not (case.func == 'strncpy_s' and m.get('slen') == 0 and m['dest'] is not None and m['dmax'] != 0): return False
+    if not (case.func in ('strncpy_s', 'wcsncpy_s') and m.get('slen') == 0 and m['dest'] is not None and m['dmax'] != 0): return False
     if o.ret != '0' or o.handlers: return False
-    b, off = m['dest']
-    return _only_changed(case, o, b, off, off + 1) and o.blocks[b][off] == 0
+    b, off = m['dest']; w = m.get('w', 1)
+    return _only_changed(case, o, b, off, off + w) and o.blocks[b][off:off + w] == b'\x00' * w
 
 @pred
 def kf_strncat_slen0(case, o, kind, cfg, consts):
     # strncat_s(dest, dmax, src, 0) with usable dest: handle_error(dest, dmax, EOK|ESZEROL): clears dest, calls the handler, returns EOK
     m = case.meta
-    if not (case.func == 'strncat_s' and m.get('slen') == 0 and m['dest'] is not None and m.get('src') is not None): return False
+    if not (case.func in ('strncat_s', 'wcsncat_s') and m.get('slen') == 0 and m['dest'] is not None and m.get('src') is not None): return False
     if o.ret != '0' or [tuple(h) for h in o.handlers] != [('S', '0')]: return False
     b, off = m['dest']
-    return _only_changed(case, o, b, off, off + m['dmax'])
+    return _only_changed(case, o, b, off, off + m['dmax'] * m.get('w', 1))
 
 @pred
 def kf_bos_replaces_dmax(case, o, kind, cfg, consts):
